@@ -54,6 +54,7 @@ class State:
         self.conds = list(conds or [])
         self.cvals = []         # (canonical value of the condition, polarity), parallel to conds
         self.cexprs = []        # (value of the condition or None, polarity), parallel to conds
+        self.reads = []         # ((array, offset), number of conditions in force) for every element read
         self.ret = None
         self.done = False
         self.loopctl = None     # 'break' / 'continue'
@@ -64,12 +65,15 @@ class State:
         s.calls = list(self.calls)
         s.cvals = list(self.cvals)
         s.cexprs = list(self.cexprs)
+        s.reads = list(self.reads)
         return s
 
     def sym(self, key):
         return Rat(Poly.var(_keyname(key)))
 
     def get(self, key):
+        if isinstance(key, tuple):
+            self.reads.append((key, len(self.cexprs)))
         if key not in self.env:
             self.env[key] = self.sym(key)
         return self.env[key]
@@ -211,6 +215,10 @@ class SymExec:
         if "[" in t and not (ks and C.strip(ks[-1]).get("kind") == "InitListExpr"):
             st.env[name] = Ptr(name, 0)
             return
+        if "vector<" in t.replace("std::", "") and not t.rstrip().endswith(("*", "&")):
+            # a std::vector local: an array of its own (sized / filled by its constructor: element values unknown unless stored later)
+            st.env[name] = Ptr(name, 0)
+            return
         if ks:
             init = C.strip(ks[-1])
             if init.get("kind") == "InitListExpr":
@@ -334,6 +342,8 @@ class SymExec:
         if isinstance(base, Ptr):
             off = _r(base.off) + _r(idx)
             ci = _const_int(off)
+            if ci is None:
+                self.__dict__.setdefault("offvals", {})[repr(off)] = off        # the value behind the printed offset
             if isinstance(base.base, tuple):      # row of a 2-d array
                 return (base.base[0], base.base[1:] + ((ci if ci is not None else repr(off)),))
             return (base.base, ci if ci is not None else repr(off))
